@@ -79,11 +79,13 @@ CHECKS.update({
         engine="K-crate + K-unit slice",
         technique="bounded model checking (Kani/CBMC) of the checked float constructor over all 2^64 bit patterns and of float natives through their real registration",
         text="XValue::float yields a Float only for finite inputs (all bit patterns); add/sub/mul/div/neg natives yield the IEEE result when "
-             "finite and an error value otherwise (second operand from a constant table in the quick tier, both symbolic in thorough); "
+             "finite and an error value otherwise (add/sub: both operands symbolic; mul/div: second operand from a constant table, mul fully "
+             "symbolic in thorough); "
              "int.to_float yields finite-or-error for ANY answer of num-bigint's to_f64 (stubbed by contract). One recorded finding: the "
              "literal 1e999 compiles to Float(inf).",
         note="Trusted: Kani/CBMC's IEEE-754 encoding; stubs listed in evidence. Outside: libm/statrs functions (all return through the "
-             "checked constructor), float mod, JSON numbers, prelude helpers.",
+             "checked constructor), float mod (a harness runs, but CBMC's remainder model never yields the NaN of `inf % b`: the seeded "
+             "change C13-agent1 is missed), division with both operands symbolic (does not finish), JSON numbers, prelude helpers.",
         ref="DESIGN.md 4 C13"),
     "C18": dict(
         engine="K-unit",
